@@ -46,7 +46,7 @@ def dual_average(rep, mir, L):
     for tag in ('1', '2'):
         m = Machine(); m.pc = list(pre)
         c = m.alloc(_da(L, A, tag, sh)); acc = A.fresh('accept' + tag)
-        res = vm.run(adv, [Ref(c), acc, tgt], m)
+        res = vm.merge_outcomes(vm.run(adv, [Ref(c), acc, tgt], m))      # a branching but panic-free body is one outcome with ite values
         ok = [(mm, v) for (mm, k, v) in res if k == 'ret']
         pn = [(mm, v) for (mm, k, v) in res if k == 'panic']
         rep.paths += len(res)
@@ -124,7 +124,7 @@ def adam(rep, mir, L):
     st = L.make('Adam', {'log_step': ls, 'm': mm_, 'v': vv, 't': t, 'settings': opts})
     pre = [z3.Real('accept') >= 0, z3.Real('accept') <= 1, z3.Real('target') > 0, z3.Real('target') < 1, t >= 0, t < 2 ** 31 - 1, b1.v > 0, b1.v < 1, b2.v > 0, b2.v < 1, eps.v > 0, lr.v > 0, vv.v >= 0]
     m = Machine(); m.pc = list(pre); c = m.alloc(st); acc, tgt = A.fresh('accept'), A.fresh('target')
-    res = vm.run(adv, [Ref(c), acc, tgt], m); rep.paths += len(res)
+    res = vm.merge_outcomes(vm.run(adv, [Ref(c), acc, tgt], m)); rep.paths += len(res)
     ok = [(mm, v) for (mm, k, v) in res if k == 'ret']
     if len(ok) != 1 or len(res) != 1:
         rep.violated('C07.4 adam.no_panic', 'adam.panic', 'Adam::advance can panic for t < 2^31-1: %r' % ([v for (_, k, v) in res if k == 'panic'][:1],)); return
@@ -181,7 +181,7 @@ def estimator_feed(rep, mir, L):
                    z3.Real('last_mean') != z3.Real('last_sym'), z3.Real('last_mean') != z3.Real('target'), z3.Real('last_sym') != z3.Real('target')]
             fn = mir.method('Strategy', None, which, file='stepsize')
             m = Machine(); m.pc = list(pre); c = m.alloc(strat)
-            res = vm.run(fn, [Ref(c)], m); rep.paths += len(res); n += 1
+            res = vm.merge_outcomes(vm.run(fn, [Ref(c)], m)); rep.paths += len(res); n += 1
             if len(res) != 1 or res[0][1] != 'ret':
                 bad.append('%s [%s]: %d outcomes, %r' % (which, method, len(res), [(k, str(v)[:80]) for (_, k, v) in res][:2])); continue
             m1 = res[0][0]; post = m1.mem[c]
@@ -194,7 +194,7 @@ def estimator_feed(rep, mir, L):
             # reference: the estimator's own advance on the same pre-state, fed (statistic, target)
             adv = mir.method(ty, None, 'advance'); m2 = Machine(); m2.pc = list(pre); c2 = m2.alloc(inner)
             stat = R('last_mean') if statname == 'last_mean_tree_accept' else R('last_sym')
-            ref = vm.run(adv, [Ref(c2), stat, R('target')], m2)
+            ref = vm.merge_outcomes(vm.run(adv, [Ref(c2), stat, R('target')], m2))
             if len(ref) != 1 or ref[0][1] != 'ret': bad.append('%s::advance: %d outcomes' % (ty, len(ref))); continue
             want = ref[0][0].mem[c2]
             diffs = []
